@@ -957,6 +957,11 @@ class Engine:
             yield st, SVal(self.set_inter(a.t, b.t, ta), ta)
             return
         if isinstance(op, ast.BitOr) and isinstance(ta, TDict) and isinstance(tb, TDict) and ta == tb:
+            if getattr(ta, "cls", None) is not None:
+                # dict subclass: `a | b` dispatches to type(a).__or__ found on the real MRO
+                from .builtins_ import call_method
+                yield from call_method(self, BoundM(a, "__or__", None), [b], {}, st, node)
+                return
             yield st, self.dict_union(a, b)
             return
         if isinstance(op, ast.BitXor) and ta is BOOL and tb is BOOL:
@@ -978,24 +983,30 @@ class Engine:
 
     # sets / dicts algebra -----------------------------------------------------------------------
     def set_union(self, a, b, ty):
-        x = z3.Const("x!su", self.U.sort(ty.elem))
-        return z3.Lambda([x], z3.Or(a[x], b[x]))
+        return z3.SetUnion(a, b)
 
     def set_diff(self, a, b, ty):
-        x = z3.Const("x!sd", self.U.sort(ty.elem))
-        return z3.Lambda([x], z3.And(a[x], z3.Not(b[x])))
+        return z3.SetDifference(a, b)
 
     def set_inter(self, a, b, ty):
-        x = z3.Const("x!si", self.U.sort(ty.elem))
-        return z3.Lambda([x], z3.And(a[x], b[x]))
+        return z3.SetIntersect(a, b)
 
     def dict_union(self, a, b):
-        """a | b : keys of both, b wins"""
+        """a | b : keys of both, b wins.  An uninterpreted function with pointwise axioms triggered on select (lambda-defined
+        arrays make z3's array theory incomplete)"""
         dt = self.U.dt(a.ty)
-        x = z3.Const("x!du", self.U.sort(a.ty.k))
-        dom = z3.Lambda([x], z3.Or(dt.dom(a.t)[x], dt.dom(b.t)[x]))
-        val = z3.Lambda([x], z3.If(dt.dom(b.t)[x], dt.val(b.t)[x], dt.val(a.t)[x]))
-        return SVal(dt.mkdict(dom, val), a.ty)
+        srt = self.U.sort(a.ty)
+        key = "dunion!" + _m(a.ty.key)
+        first = not any(k[0] == key for k in self.ufs)
+        f = self.uf(key, [srt, srt], srt)
+        if first:
+            x, y = z3.Const("x!du", srt), z3.Const("y!du", srt)
+            k = z3.Const("k!du", self.U.sort(a.ty.k))
+            u = f(x, y)
+            self.axioms.append(z3.ForAll([x, y], dt.dom(u) == z3.SetUnion(dt.dom(x), dt.dom(y)), patterns=[u]))
+            self.axioms.append(z3.ForAll([x, y, k], z3.Select(dt.val(u), k) == z3.If(z3.Select(dt.dom(y), k), z3.Select(dt.val(y), k), z3.Select(dt.val(x), k)),
+                                         patterns=[z3.Select(dt.val(u), k)]))
+        return SVal(f(a.t, b.t), a.ty)
 
     def dict_keys(self, d):
         dt = self.U.dt(d.ty)
